@@ -238,6 +238,14 @@ def model_inputs(ctx, model):
     return out
 
 
+def _from_verde(exc):
+    "does the traceback pass through verde's own source?"
+    for fr in traceback.extract_tb(exc.__traceback__):
+        if "/verde/" in fr.filename and "/tests/" not in fr.filename:
+            return True
+    return False
+
+
 def run_concrete(prop_mod, harness, cfg, values, seed=0):
     """Run the harness body on the real, unstubbed code with concrete inputs.
     Returns dict(status = 'ok' | 'fail' | 'precondition', failed=[labels], detail)"""
@@ -254,6 +262,8 @@ def run_concrete(prop_mod, harness, cfg, values, seed=0):
     except (E.HarnessError, E.Inconclusive, E.PathAbort):
         raise
     except Exception as exc:  # noqa: BLE001 - an exception the harness did not expect is a failed claim
+        if not _from_verde(exc):
+            raise E.HarnessError("exception raised outside verde's code (harness bug?): %s: %s\n%s" % (type(exc).__name__, exc, traceback.format_exc(limit=4)))
         tb = traceback.format_exc(limit=6)
         return {
             "status": "fail",
@@ -428,6 +438,8 @@ def run_job(prop, prop_mod, harness, cfg, tier, seed, known_pass=None):
                 try:
                     harness.fn(ctx)
                 except Exception as exc:  # noqa: BLE001 - unexpected exception on a feasible path
+                    if not _from_verde(exc):
+                        raise E.HarnessError("exception raised outside verde's code (harness bug?): %s: %s\n%s" % (type(exc).__name__, exc, traceback.format_exc(limit=4)))
                     tb = traceback.extract_tb(exc.__traceback__)
                     where = ""
                     for fr in tb:
